@@ -58,7 +58,17 @@ F9 == {Case(<<<<a>>>>, {}, "none", -1, {}, "none", -1) : a \in Sizes}
       \cup UNION {{Case(<<<<a>>, <<"x">>>>, c, "none", -1, {}, "none", -1) : c \in {{}, {Len1(<<a>>)}}} : a \in {"A4096", "A16384"}}
       \cup {Case(<<<<"A1500">>, <<"A2596">>>>, {}, "none", -1, {}, "none", -1), Case(<<<<"A4000">>, <<"A4192">>>>, {}, "none", -1, {}, "none", -1),
             Case(<<<<"x">>, <<"A8192">>>>, {Len1(<<"x">>)}, "none", -1, {}, "none", -1)}
-Cases == CASE Family = "F7" -> F7 [] Family = "F8" -> F8 [] Family = "F9" -> F9 [] Family = "F6" -> F6 [] Family = "F1" -> F1 [] Family = "F2" -> F2 [] Family = "F3" -> F3
+(* multi-byte characters, each of their bytes a symbol: every cut inside a character, one or two cuts *)
+BU == {<<"U1", "U2">>, <<"x", "E1", "E2", "E3", "x">>, <<"G1", "G2", "G3", "G4">>, <<"U1", "U2", "]", "E1", "E2", "E3">>}
+F10 == UNION {{Case(<<b>>, c, "none", -1, {}, "none", -1) : c \in SubsetsUpTo(5..(Len1(b) - 7), 2)} : b \in BU}
+       \cup UNION {{Case(<<b, <<"x">>>>, {c}, "none", -1, {}, "none", -1) : c \in 5..(Len1(b) - 7)} : b \in BU}
+(* many replies at once: more than any queue between the transport and the session holds (40 pipelined requests,  *)
+(* the replies in one unit, or each in its own, or cut in the middle of the stream)                                *)
+Many(n) == [k \in 1..n |-> <<"x">>]
+F11 == {Case(Many(n), c, "none", -1, {}, "none", -1) : n \in {33, 40, 70},
+          c \in {{}, {Len1(<<"x">>) * 20}}}
+       \cup {Case(Many(n), {k * Len1(<<"x">>) : k \in 1..(n - 1)}, "none", -1, {}, "none", -1) : n \in {33, 40}}
+Cases == CASE Family = "F7" -> F7 [] Family = "F10" -> F10 [] Family = "F11" -> F11 [] Family = "F8" -> F8 [] Family = "F9" -> F9 [] Family = "F6" -> F6 [] Family = "F1" -> F1 [] Family = "F2" -> F2 [] Family = "F3" -> F3
            [] Family = "F4" -> F4 [] Family = "F5" -> F5
 ASSUME PrintT(<<"GEN", ToJson([cases |-> Cases])>>)
 VARIABLE dummy
